@@ -1,7 +1,7 @@
 (* Property C09 (the export depends only on which secrets are supplied, not on how) -- statements only. *)
 From Coq Require Import ZArith List Bool.
 From Coq Require String.
-Require Import PyLib SuiteTypes Crypto KeySchedule Packet QuicFrames Main Keylog C09P.
+Require Import PyLib SuiteTypes Crypto KeySchedule QuicKeys Packet QuicFrames Main Keylog C09P C09OrderP.
 Import ListNotations.
 Open Scope Z_scope.
 
@@ -42,6 +42,27 @@ Theorem C09_blocks_anywhere_tls : forall C tbl parts o ks0 items,
   run_tls C tbl parts o ks0 items = run_tls C tbl parts o (ks0 ++ dsb_keys items) (packets_only items).
 Proof. exact dsb_anywhere_tls. Qed.
 Print Assumptions C09_blocks_anywhere_tls.
+
+(* line order and duplicate lines, TLS 1.3: the derivation takes the last line per label, so two logs with the same lines -- in any
+   order, with any repetitions -- whose lines for one label agree give the same keys *)
+Theorem C09_order_and_duplicates_tls13 : forall C key_length h a b ka kb, same_lines a b -> consistent a ->
+  dev_tls_13_keys C a key_length h = Ok ka -> dev_tls_13_keys C b key_length h = Ok kb -> ka = kb.
+Proof. exact order_irrelevant_tls13. Qed.
+Print Assumptions C09_order_and_duplicates_tls13.
+
+(* QUIC: the same, over its six labels *)
+Theorem C09_order_and_duplicates_quic : forall C key_length h v a b ka kb, same_lines a b -> consistent a ->
+  dev_quic_keys C key_length a h v = Ok ka -> dev_quic_keys C key_length b h v = Ok kb -> ka = kb.
+Proof. exact order_irrelevant_quic. Qed.
+Print Assumptions C09_order_and_duplicates_quic.
+
+(* TLS <= 1.2: only the first line of the connection is used; when all its lines are the same line, every order has the same first line *)
+Theorem C09_first_line : forall C v cs a b cr sr, v <> TLS13 -> hd_error a = hd_error b ->
+  derive_session_keys C v cs a cr sr = derive_session_keys C v cs b cr sr.
+Proof. exact derive_uses_first_line. Qed.
+Theorem C09_duplicates_first_line : forall (a b : list secret) x, (forall s, In s a -> s = x) -> (forall s, In s b -> s = x) -> a <> [] -> b <> [] -> hd_error a = hd_error b.
+Proof. exact first_line_same. Qed.
+Print Assumptions C09_first_line.
 
 (* non-vacuity: a two-line log with CRLF, a comment and upper-case digits *)
 Example C09_example :
